@@ -205,6 +205,8 @@ def family_replay(chk, wvbin, wd, pid, plan):
         if r["rc"] != 0 or r["error"]:
             sys.stderr.write(r.get("stdout", "")[-2000:])
             tool_error("family enumeration failed: %s" % r["error"])
+        if any(d.get("prop") == "ORACLE" for d in r["diags"]):
+            tool_error("the rules specification failed its own consistency lemma: %s" % json.dumps(r["diags"][:2]))
         chk.coverage["states"] = chk.coverage.get("states", 0) + r["distinct"]
         chk.coverage["transitions"] = chk.coverage.get("transitions", 0) + r["states"]
     outs = [j["stdout_path"] for j in jobs]
